@@ -8,6 +8,7 @@
 import SSEPyVerif.Proofs.Schemes.ChainCfg
 import SSEPyVerif.Proofs.Schemes.SSE2
 import SSEPyVerif.Proofs.Schemes.PiPtr
+import SSEPyVerif.Proofs.Schemes.ANSS16
 namespace SSEPy.C02
 open SSEPy.Sch SSEPy.Sch.Chain
 
@@ -28,6 +29,11 @@ theorem PiPtr.search_absent_empty (cfg : PiPtrCfg) (lv : Leaves) (edb : PiPtrEDB
     PiPtr.search cfg lv edb (K1, K2) = .ok [] := by
   have h0' : cfg.chain.prfF.call lv.hmac K1 (natToBytesMin 0) = .ok l0 := h0
   simp [PiPtr.search, PiPtr.ptrLoop, Chain.searchLoop, h0', hmiss, PiPtr.fetch, bind, Except.bind, pure, Except.pure]
+
+/-- ANSS16: a keyword whose HT(S) label is not stored gets the empty result -/
+theorem ANSS16.search_absent_empty (cfg : ANSSCfg) (lv : Leaves) (edb : ANSSEDB) (tk : ANSSToken)
+    (hmiss : edb.HTS.get tk.liP = none) : ANSS16.search cfg lv edb tk = .ok [] := by
+  simp [ANSS16.search, hmiss]
 
 /-- SSE-2: a keyword whose first address `π(w ‖ 1)` is not the address of a stored posting gets the empty result -/
 theorem SSE2.search_absent_empty (cfg : SSE2Cfg) (lv : Leaves) (K1 : Bytes) (db : DB) (I : ITable)
